@@ -27,7 +27,7 @@ EXPLANATION = (
 )
 TECHNIQUE = "static analysis: abstract interpretation of export/import code over symbolic cell values with a model of the pandas operations in use; round trips decided exactly"
 
-ARRAYS_QUICK = [("a",), ("t", "a"), ("a", "t", "b"), ("s", "t"), ("n", "a"), ("b", "s", "a"), ("m", "a"), ("z",), ("z", "s")]
+ARRAYS_QUICK = [("a",), ("t", "a"), ("a", "t", "b"), ("s", "t"), ("n", "a"), ("b", "s", "a"), ("m", "a"), ("z",), ("z", "s"), ("p", "q")]
 ARRAYS_THOROUGH = ARRAYS_QUICK + [("t",), ("b", "a"), ("a", "b", "t"), ("t", "b", "a", "n"), ("s",), ("n", "t", "s"), ("m",), ("t", "m", "s")]
 
 
